@@ -392,3 +392,17 @@ func FuzzC30(f *testing.F) {
 		}
 	})
 }
+
+func TestC30_HumanLayout(t *testing.T) {
+	ev.Run(t, ev.Spec[srcCase]{ID: "C30", Name: "HumanLayout", Quick: 800, Thorough: 30000,
+		Rule: "generated files laid out the way people write them: any amount of spaces, tabs and line breaks between tokens, comments only at declaration boundaries (after ; { } outside option values); this class exercises exact reproduction much more often than the adversarial layouts; " + c30Rule,
+		Gen: func(t *rapid.T) srcCase {
+			ws := gen.GenWorkspace(t, gen.Config{MaxFiles: 1, CustomOpts: gen.Pct(t, 40, "custom")})
+			f := ws.Files[0]
+			if gen.Pct(t, 25, "canonical") {
+				return srcCase{Name: f.Name, Text: gen.Print(f)}
+			}
+			return srcCase{Name: f.Name, Text: c31Layout(t, gen.TokTexts(gen.Tokens(f)))}
+		},
+		Check: c30Check})
+}
